@@ -18,14 +18,18 @@ def overlay(sc):
 
 def model_part(mdir, tier, seed):
     thorough = tier == "thorough"
-    cfgs = [(2, 2, False), (2, 2, True), (3, 1, False)] + ([(3, 2, False), (2, 3, True), (3, 2, True)] if thorough else [])
+    # measured (16 cores): (2,3,T) 1.9 M distinct states 20 s; (3,1,T) 0.46 M 6 s; (2,3,F) 1.2 M 10 s; (3,2,T) over {flat,carr} 1.2 M 15 s;
+    # (3,2,F) over {flat,carr,dict} 30 M 5.5 min; (3,2,.) and (4,1,.) over all six shapes exceed 50 M states / 30 min and are not run
+    cfgs = [(2, 2, False, SHAPES), (2, 2, True, SHAPES), (3, 1, False, SHAPES)]
+    if thorough:
+        cfgs += [(2, 3, False, SHAPES), (2, 3, True, SHAPES), (3, 1, True, SHAPES), (3, 2, True, '{"flat", "carr"}'), (3, 2, False, '{"flat", "carr", "dict"}')]
     nsim = 500 if thorough else 120
 
     def one(c):
-        G, K, sync = c
-        consts = "CONSTANTS G = %d\n K = %d\n Sync = %s\n Shapes = %s\n" % (G, K, "TRUE" if sync else "FALSE", SHAPES)
+        G, K, sync, shapes = c
+        consts = "CONSTANTS G = %d\n K = %d\n Sync = %s\n Shapes = %s\n" % (G, K, "TRUE" if sync else "FALSE", shapes)
         r = tlc(mdir, "EventLife", consts + "SPECIFICATION Spec\nVIEW View\nCHECK_DEADLOCK FALSE\nINVARIANTS SingleOwner StableDuringWrite NoOverlapUnderSync PoolBalanced\n",
-                workers=4, timeout=1800, cfg_name="el_%d%d%s.cfg" % (G, K, sync))
+                workers=4, timeout=2400, cfg_name="el_%d%d%s.cfg" % (G, K, sync))
         if not r.completed:
             raise Inconclusive("EventLife: %s" % r.out[-1500:])
         s = tlc(mdir, "EventLife", consts + "SPECIFICATION Spec\nCHECK_DEADLOCK FALSE\nINVARIANT EmitDone\n", workers=1, simulate=nsim, depth=300, seed=seed,
